@@ -207,7 +207,7 @@ impl Property for C06 {
     fn cases(&self, tier: Tier, rng: &mut Rng) -> (Vec<Case>, bool) {
         let mut cases = Vec::new();
         // strings
-        let alpha = ["a", "\"", "\\", "/", "*", " ", "\n", "ä", "😀", "+"];
+        let alpha = ["a", "\"", "\\", "/", "*", " ", "\n", "ä", "😀", "+", "\u{200b}", "\u{feff}"];
         let maxlen = if tier == Tier::Quick { 4 } else { 6 };
         for len in 0..=maxlen {
             let total = alpha.len().pow(len as u32);
@@ -236,7 +236,18 @@ impl Property for C06 {
                 .map(|_| match rng.below(6) {
                     0 => '"',
                     1 => '\\',
-                    2 => char::from_u32(rng.below(0x250) as u32).unwrap_or('a'),
+                    2 => {
+                        // any scalar value, with the invisible / special ones over-represented
+                        const SPECIAL: [u32; 24] = [
+                            0x200B, 0x200C, 0x200D, 0x2060, 0xFEFF, 0x00AD, 0x034F, 0x061C, 0x200E, 0x200F, 0x202A, 0x202E, 0x2028, 0x2029, 0x0085, 0x00A0,
+                            0x0301, 0x0000, 0x007F, 0x001B, 0xFFFD, 0xFFFF, 0x10FFFF, 0xE000,
+                        ];
+                        if rng.chance(1, 2) {
+                            char::from_u32(*rng.pick(&SPECIAL)).unwrap_or('a')
+                        } else {
+                            char::from_u32((rng.next() % 0x110000) as u32).unwrap_or('\u{200b}')
+                        }
+                    },
                     3 => char::from_u32(0x1F600 + rng.below(40) as u32).unwrap_or('a'),
                     4 => *rng.pick(&['/', '*', '\n', ' ', '(', ';']),
                     _ => (b'a' + rng.below(26) as u8) as char,
